@@ -80,8 +80,9 @@ def compared_fields(fn: ast.FunctionDef, module=None, _depth: int = 0) -> Dict[s
                         out.setdefault(f, []).append(n)
                     elif pf is not None:
                         # the two sides may be named intermediates, possibly several fields zipped together, possibly sorted
-                        xe, ye = _expand(fn, x), _expand(fn, y)
-                        pf2 = _pair_field(xe, ye)
+                        pf2 = pf
+                        if _re.fullmatch(r"(\w+\()*@(\[[^\]]*\])*\)*", pf):      # bare names (possibly wrapped): look at what they name
+                            pf2 = _pair_field(_expand(fn, x, 1), _expand(fn, y, 1)) or pf
                         if pf2:
                             unordered = bool(_re.match(r"(sorted|set|frozenset)\(", pf2))
                             for fm in _re.finditer(r"@(\[[^\]]*\])?\.(\w+)", pf2):
